@@ -72,6 +72,9 @@ class Check:
         return self.ob(rule, instance, False, detail, loc, True, witness)
 
     def inconclusive(self, rule, instance, detail="", loc=""):
+        if "PIECEWISE:" in str(detail):
+            # a unit conversion whose result depends on a condition on the value is not the affine map of the units
+            return self.ob(rule, instance, False, str(detail).replace("PIECEWISE: ", ""), loc, True)
         if "HISTORY:" in str(detail):
             # the evaluated function keeps state between calls: its result is not a function of its inputs
             return self.ob(rule, instance, False, str(detail).replace("HISTORY: ", ""), loc, True)
